@@ -202,6 +202,8 @@ fn main() {
         let mut pids = vec![];
         for (name, bytes) in &pkgs { let p = Package::from_bytes(name, None, bytes.clone(), g.types_mut()).unwrap(); pids.push(g.register_package(p).unwrap()); }
         let fty = g.types_mut().add_func_type(FuncType { params: Default::default(), result: None, is_async: false });
+        // a node created first and removed before encoding: node identifiers then have a hole below every other node
+        let scratch = if c % 3 == 1 { let n = g.instantiate(pids[0]); let a = g.alias_instance_export(n, "f").unwrap(); g.set_node_name(a, "scratch-alias"); Some(n) } else { None };
         let mut imports: Vec<NodeId> = vec![];
         let mut insts: Vec<(NodeId, usize)> = vec![];
         let mut named = 0;
@@ -211,6 +213,7 @@ fn main() {
         let ninst = 2 + r.below(4);
         let mut aliases: Vec<NodeId> = vec![];
         let mut iface_imports: Vec<NodeId> = vec![];
+        let mut own_name_used = false;
         for i in 0..ninst {
             let k = r.below(5);
             let inst = g.instantiate(pids[k]);
@@ -224,7 +227,11 @@ fn main() {
             if k == 4 && r.below(2) == 0 {
                 let src = match iface_imports.last() { Some(n) if r.below(2) == 0 => *n, _ => {
                     let kind = g.types()[g[pids[4]].ty()].imports["a:b/c"];
-                    let n = g.import(format!("foo{}", iface_imports.len()), kind).unwrap(); iface_imports.push(n); n } };
+                    // ... or, once, under the interface's OWN name (an explicit import named like the interface, after one named otherwise)
+                    let own = !own_name_used && !iface_imports.is_empty() && r.below(2) == 0;
+                    let n = match g.import(if own { "a:b/c".to_string() } else { format!("foo{}", iface_imports.len()) }, kind) { Ok(n) => n, Err(_) => g.import(format!("foo{}", iface_imports.len()), kind).unwrap() };
+                    if own { own_name_used = true; }
+                    iface_imports.push(n); n } };
                 g.set_instantiation_argument(inst, "a:b/c", src).unwrap();
             }
             let args: &[&str] = match k { 0 => &["a", "b"], _ => &["a"] };
@@ -243,6 +250,14 @@ fn main() {
                 }
             }
             insts.push((inst, k));
+        }
+        // directed shape: two instantiations of t:i, the first given an explicit import `foo..` of the interface, the second an
+        // explicit import named like the interface itself (created afterwards)
+        if c % 10 == 7 && !own_name_used {
+            let kind = g.types()[g[pids[4]].ty()].imports["a:b/c"];
+            let f = g.import(format!("foo{}", iface_imports.len()), kind).unwrap(); iface_imports.push(f);
+            let i1 = g.instantiate(pids[4]); g.set_instantiation_argument(i1, "a:b/c", f).unwrap(); insts.push((i1, 4));
+            if let Ok(o) = g.import("a:b/c", kind) { iface_imports.push(o); let i2 = g.instantiate(pids[4]); g.set_instantiation_argument(i2, "a:b/c", o).unwrap(); insts.push((i2, 4)); }
         }
         // one consumer per provider, each taking the TYPE export `r` of its own provider (the same type export aliased from
         // several instances of one package)
@@ -272,6 +287,7 @@ fn main() {
                 if r.below(2) == 0 { let second = format!("{tname}-again"); if g.export(d, &second).is_ok() { designated.push((second, d)); } }
             }
         }
+        if let Some(n) = scratch { g.remove_node(n); }
         for define in [true, false] {
             let bytes = match g.encode(EncodeOptions { define_components: define, validate: true, processor: None }) { Ok(b) => b, Err(_) => continue };   // cycles / conflicts: not this property
             comps += 1;
